@@ -11,11 +11,11 @@ import (
 
 // VerifPipeline runs the post-merge part of Load (mutators + render + assign), no validators.
 func VerifPipeline(p *types.Project) error {
-	apply(p, setDefaultShell, assignDefaultProcessValues, cloneReplicas, copyWorkingDirToProbes)
-	if err := applyWithErr(p, renderTemplates); err != nil {
+	verifApply(p, setDefaultShell, assignDefaultProcessValues, cloneReplicas, copyWorkingDirToProbes)
+	if err := renderTemplates(p); err != nil {
 		return err
 	}
-	apply(p, assignExecutableAndArgs)
+	verifApply(p, assignExecutableAndArgs)
 	return nil
 }
 
@@ -98,18 +98,18 @@ func verifC16Field(pc types.ProcessConfig, field int) string {
 // renderTemplates - and sorted in the others.
 func verifPipelineOrders(p *types.Project, open bool) error {
 	verifSymbolicMapOrder(false)
-	apply(p, setDefaultShell, assignDefaultProcessValues)
+	verifApply(p, setDefaultShell, assignDefaultProcessValues)
 	verifSymbolicMapOrder(open)
-	apply(p, cloneReplicas)
+	verifApply(p, cloneReplicas)
 	verifSymbolicMapOrder(false)
-	apply(p, copyWorkingDirToProbes)
+	verifApply(p, copyWorkingDirToProbes)
 	verifSymbolicMapOrder(open)
-	err := applyWithErr(p, renderTemplates)
+	err := renderTemplates(p)
 	verifSymbolicMapOrder(false)
 	if err != nil {
 		return err
 	}
-	apply(p, assignExecutableAndArgs)
+	verifApply(p, assignExecutableAndArgs)
 	return nil
 }
 
@@ -171,4 +171,12 @@ func VerifC16_Pipeline() {
 		verifFail("global.vars.changed.by.loading")
 	}
 	verifReach("end")
+}
+
+// verifApply: the harness's own way of running loader steps one after another (the loader's
+// helper for this is private and may change)
+func verifApply(p *types.Project, steps ...func(*types.Project)) {
+	for _, st := range steps {
+		st(p)
+	}
 }
